@@ -623,6 +623,24 @@ def r75(db, ctx):
                 ok = True
             else:
                 why = f'comparison is {X.show(lhs, 60)} {rel} {X.show(rhs, 30)} (cell of the pushed row/column over all C columns expected)'
+        elif b is not None and colix is None and common.is_call_to(b['$mx'], 'StripedScores::matrix') and g:
+            # the column is a hand-written counter: `let mut col = 0; while col < C { .. col += 1; }`
+            from lm import iteralg as IA
+            wc = IA.while_counters(f, R)
+            cv = norm(b['$col'])
+            ent = wc.get(cv[1]) if cv[0] == 'v' else None
+            row_i = norm(('fld', ('elem', norm(v)[2][0][1][1], b['$L']), '1'))
+            if ent is not None and not isinstance(ent[0], tuple) and ent[1] == ('k', 0) and ent[2] is not None and common.is_usize_const(norm(ent[2]), 'C'):
+                for r in g:
+                    lhs, rhs, rel = norm(r[1]), norm(r[2]), r[0]
+                    if rel == 'le':
+                        lhs, rhs, rel = rhs, lhs, 'ge'
+                    if rel == 'ge' and lhs[0] == 'idx' and norm(lhs[1]) == row_i and norm(lhs[2]) == cv and rhs[0] == 'p':
+                        ok = True
+                if not ok:
+                    why = 'no test row_i[col] >= t dominates the push'
+            else:
+                why = f'pushed {X.show(v, 120)}'
         else:
             why = f'pushed {X.show(v, 120)}'
     (ctx.ok if ok else ctx.fail)('R7.5', f, 'threshold: push (i, col) iff row_i[col] >= t, all rows x all C columns', *([['inclusive', 'each cell once']] if ok else [why]))
